@@ -55,7 +55,7 @@ func init() {
 		return genRunnerCase(r, convCfg, opsCfg{steps: 36, extraAfterEnd: 1, snapshots: true, runners: 1, snapFreq: 5})
 	}, run: runRunnerCase})
 	visitCfg := flowCfg
-	visitCfg.wJump, visitCfg.wStop, visitCfg.visitLines, visitCfg.maxNodes, visitCfg.wCmd = 7, 0, true, 5, 0
+	visitCfg.wJump, visitCfg.wStop, visitCfg.visitLines, visitCfg.maxNodes, visitCfg.wCmd = 7, 1, true, 5, 0
 	visitCfg.neverPct = 35
 	register("visits", family{gen: func(r *rand.Rand, tier string) *sx.Node {
 		return genRunnerCase(r, visitCfg, opsCfg{steps: 40, extraAfterEnd: 1, snapshots: true, runners: 1, snapFreq: 3})
@@ -485,7 +485,8 @@ func runRepeated(c *sx.Node) *sx.Node {
 
 var cmdNames = []string{"walk", "say", "iffy", "settings", "jumpy", "caller", "declared", "localise", "enumerate", "cases", "ifelse", "wálk", "set_up", "x"}
 var cmdWords = []string{"left", "3", "-3", "0.5", "-12.25", "007", "true", "false", "True", "inf", "NaN", "1e3", ".5", "5.", "+5", "0x10", "-", "--1",
-	"1.2.3", "né", "日本", "a,b", "x=1", "#tag", "a/b", "it's", "\"q\"", "1_000", "tru", "falsey", "-0", "00", "9999999999999999999999"}
+	"1.2.3", "né", "日本", "a,b", "x=1", "#tag", "a/b", "it's", "\"q\"", "1_000", "tru", "falsey", "-0", "00", "9999999999999999999999",
+	"４２", "-٣.٥", "1२", "٣", "1.२", "²", "1e", "1.", "-.5", "1.5.", "TRUE", "False", "t", "f", "1,5"}
 var cmdSeps = []string{" ", " ", "  ", "\t", " \t ", "   "}
 
 // genCmdArgsCase: generic commands written as raw text (C17): names incl. keyword-prefixed ones, words
